@@ -811,7 +811,7 @@ class StaticVector : public StaticVectorBase<T, SizeType> {
   template <class... Args>
   iterator emplace(const_iterator position, Args &&...args) {
     assert(position >= this->cbegin() && position <= this->cbegin() + this->size());
-    GrowingPolicy::Check(this->size() + 1U, this->capacity());
+    GrowingPolicy::Check(static_cast<uintmax_t>(this->size()) + 1U, this->capacity());
     iterator pos = const_cast<iterator>(position);
     emplace_n(pos, this->size() - (pos - this->begin()), std::forward<Args>(args)...);
     this->incrSize();
@@ -820,7 +820,7 @@ class StaticVector : public StaticVectorBase<T, SizeType> {
 
   template <class... Args>
   reference emplace_back(Args &&...args) {
-    GrowingPolicy::Check(this->size() + 1U, this->capacity());
+    GrowingPolicy::Check(static_cast<uintmax_t>(this->size()) + 1U, this->capacity());
     iterator endIt = this->begin() + this->size();
     amc::construct_at(endIt, std::forward<Args &&>(args)...);
     this->incrSize();
@@ -901,7 +901,7 @@ class DynamicVector : public DynamicVectorBaseTypeDispatcher<T, Alloc, SizeType,
       ElemStorage<T> e;
       amc::construct_at(e.ptr(), std::forward<Args &&>(args)...);
       SizeType idx = static_cast<SizeType>(position - this->begin());
-      this->grow(this->size() + 1U);
+      this->grow(static_cast<uintmax_t>(this->size()) + 1U);
       pos = this->begin() + idx;
       if (nElemsToShift == 0) {
         amc::relocate_at(e.ptr(), pos);
@@ -929,7 +929,7 @@ class DynamicVector : public DynamicVectorBaseTypeDispatcher<T, Alloc, SizeType,
       // construct before possible iterator invalidation from grow in constructor arguments
       ElemStorage<T> e;
       amc::construct_at(e.ptr(), std::forward<Args &&>(args)...);
-      this->grow(this->size() + 1U);
+      this->grow(static_cast<uintmax_t>(this->size()) + 1U);
       endIt = this->dynStorage() + this->size();
       amc::relocate_at(e.ptr(), endIt);
     } else {
